@@ -529,7 +529,13 @@ def gen_O(tier, seed, info):
         "O T+x w0.6162 G0 F0 P+ a1.1 p0.1 h0.1 u1 u0", "O T+x P+ a1.3 p0.1 u1 u0", "O T+x P+ a1.3 h0.1 u1 u0",
         "O T+x r0 K+0 R1 u1 u0",
         "O T+n", "O T+n T+n P+ u0", "O T+n T+m u0",
+        # the output buffer is resized while output is pending: grown, shrunk below what is pending, dropped
+        "O T+x o0.64 w0.616263 w0.646566 o0.4 w0.6162 F0 u0", "O T+x o0.64 w0.616263 o0.128 w0.6162 F0 o0.0 w0.61 u0",
+        "O T+x o0.16 w0.616263 G0 o0.2 G0 w0.e4b8ad F0 u0", "O T+x o0.8 o0.8 w0.61 o0.1 w0.6162 o0.0 F0 u0",
+        "O T+m o0.16 w0.6162 o0.2 w0.6162 F0 u0",
     ]
+    for sizes in itertools.product((0, 1, 3, 16, 64), repeat=3):
+        fixed.append("O T+x o0.%d w0.616263 G0 o0.%d w0.e4b8ad61 P+ a1.1 p0.1 o0.%d w0.6162 F0 u1 u0" % sizes)
     for c in fixed:
         yield c
     made = len(fixed)
@@ -592,12 +598,14 @@ def gen_O(tier, seed, info):
                 else:
                     toks.append("%s%d" % (c, i))
             elif k == 'T':
-                c = rnd.choice("wFGZkdph")
+                c = rnd.choice("wFGZkdphoo")
                 if c == 'w':
                     toks.append("w%d.%s" % (i, rnd.choice(["6162", "c3a9", "e4b8ad"])))
                 elif c in "ph":
                     if pens:
                         toks.append("%s%d.%d" % (c, i, rnd.choice(pens)))
+                elif c == 'o':
+                    toks.append("o%d.%d" % (i, rnd.choice([0, 1, 2, 5, 16, 64, 256])))
                 else:
                     toks.append("%s%d" % (c, i))
         if rnd.random() < 0.85:
